@@ -48,6 +48,32 @@ claim('C18', 'etsim+iosim',
       "Trusted: etsim model; call-granularity interleaving is exact only under the documented protocol (skip_last=True while the writer runs). 'overall' is checked independently only in the regular single-stride case.",
       'DESIGN.md section 4 (C18)')
 
+_CORE_NOTE = "Trusted: NumPy/h5py; the reference model (a fresh AurelCore with clean-up disabled, asked only the one request) and, for exact-solution inputs, the independent refgr oracle (validated against aurel to 1e-8 on data where both constructions are right). Physical-branch keys are compared only on on-shell inputs with truncation-aware tolerances; ill-conditioned comparisons are counted as inconclusive."
+claim('C01', 'coresim',
+      'deterministic simulation: seeded guard-aware request histories x seeded eviction knobs (fault = loss of cached state at points the caller does not control) vs a fresh no-eviction reference instance; ddmin-minimised replay files',
+      "Seeded search over (generated non-flat spacetime presented through a seeded input set) x (cache knobs: clean-up period 1..20, memory threshold 1..40 scalars or default, importance overrides) x (guard-aware history of GET/HELPER/SET_IMPORTANCE ops). After every op the returned value or exception is compared with a fresh instance that holds only the inputs and is asked only that request. Eviction fires inside nested computations in most runs. Sampling, not proof.",
+      _CORE_NOTE, 'DESIGN.md section 4 (C01)')
+claim('C02', 'coresim',
+      'deterministic simulation: same histories with a byte-checksum + read-only-flag registry of every array supplied or returned, re-verified after every op',
+      "The C01 workload with a registry of every array the user supplied (inputs, helper arguments) or an earlier request returned (strong references, so they outlive eviction): checksums recomputed after every op, and every registered array flagged read-only so that an in-place write raises at its source line. The over_time / save_data / read_data argument clauses are monitored inside the C14 / C13 / C12 checks (args_mutated / mutation signatures there). Sampling, not proof.",
+      _CORE_NOTE + " Arrays cached internally but never handed to the caller are outside C02 (covered by C01).", 'DESIGN.md section 4 (C02)')
+claim('C03', 'coresim',
+      'deterministic simulation: same histories at maximal eviction pressure with bookkeeping invariants checked after every op and every clean-up',
+      "The C01 workload weighted to maximal pressure (period 1-3, thresholds of a few scalars, importance overrides incl. 0) with inputs frozen by freeze_data / load_data (and by over_time inside C14). Invariants after every op: frozen entries present, same object, same bytes; age table subset of cache; entries replaced only after an eviction; clean-up raises nothing and makes <= (n+2)^2 size evaluations (bounded progress); watchdog never fires. Sampling, not proof.",
+      _CORE_NOTE, 'DESIGN.md section 4 (C03)')
+claim('C10', 'coresim',
+      'deterministic simulation: history prefixes select the cache state that decides which Weyl construction runs; invariants evaluated on each reached state against an independent exact-GR reference',
+      "Seeded (exact-solution spacetime: HOM, long-wavelength ON, vacuum Kasner) x tetrad x vacuum flag x cache knobs x history prefix (nothing cached / Riemann cached / Riemann cached then evicted / Weyl before Riemann / E-B first / random). On the reached state: Weyl vs exact, the other construction on a second instance, Riemann unchanged, trace-free + symmetries, E/B symmetric/trace-free/equal to normal-frame contractions, E_u/B_u, tetrad orthonormality, Psi = contractions with the returned null tetrad, I and J independent of the orthonormal tetrad. Sampling over the stated family; the algebraic clauses add no claim beyond it.",
+      _CORE_NOTE, 'DESIGN.md section 4 (C10)')
+claim('C14', 'timesim',
+      'deterministic simulation: seeded row order x temporal key x partition of the requests over successive over_time calls x cache knobs, vs harness-side per-step recomputation on fresh instances',
+      "Tables of 1-6 distinct time steps (genuine time series of a generated metric, or independent off-shell slices) in seeded row order, request lists of built-in and custom variables and estimates partitioned over 1-4 successive over_time calls, aggressive cache knobs in rel_kwargs; aurel.core.AurelCore is rebound to an observing subclass so that every instance created inside over_time is monitored (evictions, frozen entries). Final table: keys == single-call table, rows sorted with all columns permuted together, inputs preserved, every variable == fresh per-step computation, every estimate == estimator(returned array), arguments untouched. Sampling, not proof.",
+      _CORE_NOTE + " A split is a call sequence whose last call carries the full estimate list.", 'DESIGN.md section 4 (C14)')
+claim('C15', 'symsim',
+      'deterministic simulation: seeded request orders (cache state selects the branch) x simplify flag x generated metric family vs an independent pointwise full-sum reference at seeded rational points',
+      "Generated symbolic metrics (dim 2-4; diagonal, non-diagonal, conformally flat; polynomial/rational/exp entries) x simplify flag x seeded request sequences with repeats over the ten quantities. After every request the returned object is evaluated at 3 rational points and compared with textbook full-sum tensors computed pointwise with exact/40-digit arithmetic. simplify=True only where sympy finishes (2-D, diagonal 3-D); runs that exceed the time budget are counted as inconclusive. Sampling, not proof.",
+      "Trusted: sympy differentiation of metric entries and exact arithmetic; equality tested at points, not symbolically.", 'DESIGN.md section 4 (C15)')
+
 
 def main():
     props = [json.loads(l) for l in open(os.path.join(VERIF, 'properties.jsonl'))]
